@@ -80,7 +80,8 @@ Print Assumptions C14_marshal_values.
 
 (** the verdict does not depend on the order in which the maps of the SCHEMA hold their
     entries: two resolved environments whose schema objects are related by [srel] (equal
-    except for the order of the entries of their maps, recursively; [erel] relates the
+    except for the order of the entries of their maps - and for the annotation-only scalar
+    keywords and unknown keywords that nothing reads, see props/C18.v - recursively; [erel] relates the
     environments node by node) give the same verdict for every instance - the loops over
     schema.Properties, PatternProperties, DependentSchemas, DependentRequired,
     DependencySchemas/Strings may run in any order *)
